@@ -112,6 +112,10 @@ func Names(quick bool) Family {
 		m.Def{"Root": {r("A", `a`), r("EOF", `b+`), push("Open", `\(`, "S")}, "S": {r("EOF", `b+`), r("A", `a`), pop("Close", `\)`)}},
 		m.Def{"Root": {r("A", `a`), push("Open", `\(`, "")}, "": {r("B", `b`), pop("Close", `\)`)}},
 		m.Def{"Root": {r("A", `a`), inc(""), push("Open", `\(`, "")}, "": {r("B", `b`), pop("Close", `\)`)}},
+		// a rule with an empty pattern and no action (it can only ever fail, but it is a rule, not a Return())
+		m.Def{"Root": {r("A", `a`), push("Open", `\(`, "S"), r("Garbage", ``)}, "S": {r("B", `b`), pop("Close", `\)`), r("Garbage", ``)}},
+		// state names that differ only in case
+		m.Def{"Root": {r("A", `a`), push("Open", `\(`, "S"), push("Bra", `é`, "s")}, "S": {r("B", `b`), pop("Close", `\)`)}, "s": {r("C", `b`), r("D", `a`), pop("Ket", `\)`)}},
 	)
 	return Family{Name: "names", Defs: defs, Alphabet: []string{"a", "b", "(", ")", "é"}, MaxLen: lenFor(quick, 4, 5)}
 }
@@ -175,7 +179,7 @@ func Includes(quick bool) Family {
 // Backrefs: entering rules with 0/1/2 groups, body rules referring to them.
 func Backrefs(quick bool) Family {
 	enters := []string{`(a)`, `(a)(b)`, `a`, `(a)|b`, `(\.)`, `(\()`, `(a*)b`, `(a|\.)(b?)`, `(a)?(b)`, `(?:(\.)|(a))(b)?`}
-	bodies := []string{`\1`, `\2`, `x\1`, `\1\1`, `\\1`, `\\\1`, `\0`, `\1|x`, `\1\\2`, `\\1\2`}
+	bodies := []string{`\1`, `\2`, `x\1`, `\1\1`, `\\1`, `\\\1`, `\0`, `\1|x`, `\1\\2`, `\\1\2`, `\11`, `\21?`}
 	var defs []m.Def
 	for _, e := range enters {
 		for i, b1 := range bodies {
